@@ -13,6 +13,7 @@ lake build HpackVerif.Props.Src || echo "setup: source tie (Props.Src) unavailab
 lake build HpackVerif.Props.SrcHuff || echo "setup: source tie (Props.SrcHuff) unavailable on this tree"
 lake build HpackVerif.Props.SrcDec || echo "setup: source tie (Props.SrcDec) unavailable on this tree"
 lake build HpackVerif.Props.SrcEnc || echo "setup: source tie (Props.SrcEnc) unavailable on this tree"
+lake build HpackVerif.Props.SrcEncApi || echo "setup: source tie (Props.SrcEncApi) unavailable on this tree"
 lake build HpackVerif.Props.SrcHuffEnc || echo "setup: source tie (Props.SrcHuffEnc) unavailable on this tree"
 lake build HpackVerif.Props.SrcTable || echo "setup: source tie (Props.SrcTable) unavailable on this tree"
 lake env lean Audit.lean > .lake/audit_setup.txt 2>&1 || true
